@@ -17,6 +17,7 @@
  * exactly the requested size; BYTE_ARRAY contents are copied by instrumented harness code right after the
  * call that returned them (ASan sees stale pointers). */
 #include "common.h"
+#include "ropts.h"
 #include <unistd.h>
 #include <carquet/carquet.h>
 
@@ -91,6 +92,7 @@ static char* read_table(const char* path, const uint8_t* fb, size_t fn, int mode
     carquet_error_t err; memset(&err, 0, sizeof err);
     carquet_reader_options_t ro; carquet_reader_options_init(&ro);
     ro.use_mmap = mode == 1; ro.verify_checksums = true;
+    h_vary_reader_options(&ro, fb, fn);
     carquet_reader_t* rd = mode == 2 ? carquet_reader_open_buffer(fb, fn, &ro, &err) : carquet_reader_open(path, &ro, &err);
     if (!rd) { sb_str(&out, "!P"); sb_int(&out, (int)err.code); return out.p; }
     if (carquet_reader_num_row_groups(rd) != nrg || carquet_reader_num_columns(rd) != ncols) {
